@@ -177,4 +177,5 @@ def main(tier, seed, replay=None):
                     {'kind': 'damage', 'container_seed': r['seed'], 'big': r['big'], 'damages': r['missed']}, 'C12:false-negative')
             break
     ck.sample({'container_seed': jobs[0][0], 'damages_tried': total, 'harmless': harmless})
-    return ck.finish()
+    import tracecheck as _tc
+    return ck.finish(search=_tc.crash_search(ck, ck.pid))
